@@ -194,6 +194,7 @@ func allTypedHelpers() {
 	typedHelpers(spell.Complex)
 	typedHelpers(spell.Pointers)
 	typedHelpers(spell.Int8)
+	typedHelpers(spell.Liars)
 	typedHelpers(spell.Stringers)
 	typedHelpers(spell.Errors)
 	typedHelpers(spell.Chans)
